@@ -249,7 +249,7 @@ inductive Fold where
   | skip (why : String)
 
 /-- the model's prediction of node `j`'s state after the batch -/
-def modelFold (ops : List QOp) (j : Nat) (now : Int) (pre : State) : Fold :=
+def modelFold (ops : List QOp) (j : Nat) (now : Int) (pre : State) (order : Nat := 0) : Fold :=
   let role : Role := if j == 0 then .leader else .follower
   (List.range ops.length).foldl (fun acc i =>
     match acc with
@@ -263,7 +263,7 @@ def modelFold (ops : List QOp) (j : Nat) (now : Int) (pre : State) : Fold :=
         | .nothing => .ok s
         | .localAt node db cmd =>
           if node != j then .ok s else
-          let c : Ctx := { db := db, now := now, conn := some 1 }
+          let c : Ctx := { db := db, now := now, conn := some 1, order := order }
           (match progOf c cmd with
           | none => .skip "unmodelled-command"
           | some p => match runCl role c p s with
@@ -272,7 +272,7 @@ def modelFold (ops : List QOp) (j : Nat) (now : Int) (pre : State) : Fold :=
             | (_, _) => .skip "abnormal-outcome")
         | .entry e hint =>
           if j != 0 && spopRandom s e.db e.cmd then .skip "random-pick-on-a-follower" else
-          match applyEntry role { db := e.db, now := now, hint := hint } s e with
+          match applyEntry role { db := e.db, now := now, hint := hint, order := order } s e with
           | none => .skip "unmodelled-command"
           | some (s', .done _) => .ok s'
           | some (_, .unmod w) => .skip ("unmod:" ++ w.replace " " "_")
@@ -294,8 +294,8 @@ def specFold (ops : List QOp) (now : Int) (pre : State) : Fold :=
       | some (_, .unmod w) => .skip ("unmod:" ++ w.replace " " "_")
       | some (_, .panic _) => .skip "panic") (.ok pre)
 
-def qModel (q : QLine) : String :=
-  let rs := q.nodes.zipIdx.map fun (n, j) => (j, n, modelFold q.ops j n.now n.pre)
+def qModelWith (q : QLine) (order : Nat) : String :=
+  let rs := q.nodes.zipIdx.map fun (n, j) => (j, n, modelFold q.ops j n.now n.pre order)
   match rs.findSome? fun (_, _, f) => match f with
     | .skip w => some w
     | .ok _ => none with
@@ -306,6 +306,17 @@ def qModel (q : QLine) : String :=
       | .skip _ => none with
     | some j => s!"DIFF node={j} dataset after the batch differs from the model's"
     | none => "OK"
+
+/-- Go map iteration order inside a handler (which operand SUNION adds into, …) is resolved by trying the
+    permutation indices, as for single transitions -/
+def qModel (q : QLine) : String :=
+  let first := qModelWith q 0
+  if !first.startsWith "DIFF" then first else
+  match (List.range 24).drop 1 |>.findSome? fun o =>
+      let v := qModelWith q o
+      if v.startsWith "DIFF" then none else some v with
+  | some v => v
+  | none => first
 
 def qSpec (q : QLine) : String :=
   if !allEq (q.nodes.map fun n => datasetOf n.pre) then "na:diverged-before"
